@@ -42,7 +42,9 @@ class GenState:
         self.links = [l for l in self.links if l[0] != h and l[2] != h]
 
 
-def gen_history(r, max_steps=30, max_nodes=8, allow_insert=True, depth=0, metadata=False):
+def gen_history(r, max_steps=30, max_nodes=8, allow_insert=True, depth=0, metadata=False, mixed=False):
+    """mixed=True (C04 only: the store is a plain port multigraph) also links an order port to a value port
+    and creates constants of several values with metadata"""
     st = GenState()
     hist = []
     nsteps = r.randint(3, max_steps)
@@ -53,7 +55,11 @@ def gen_history(r, max_steps=30, max_nodes=8, allow_insert=True, depth=0, metada
             parent = r.choice(live) if r.random() < 0.4 else 0
             md = {"k": r.choice([1, "v", [1, 2], None])} if metadata and r.random() < 0.4 else None
             if r.random() < 0.12:
-                hist.append(["add_const", parent])
+                if mixed:
+                    hist.append(["add_const", parent, r.randrange(4),
+                                 {"c": r.choice([0, "x", None])} if r.random() < 0.5 else None])
+                else:
+                    hist.append(["add_const", parent])
             else:
                 hist.append(["add_node", parent, r.choice([None, None, 0, 1, 3]), md])
             st.add(parent)
@@ -62,6 +68,10 @@ def gen_history(r, max_steps=30, max_nodes=8, allow_insert=True, depth=0, metada
             if r.random() < 0.12:
                 hist.append(["add_link", s, -1, t, -1])
                 st.links.append((s, -1, t, -1))
+            elif mixed and r.random() < 0.08:
+                so, to = r.choice([(-1, r.choice(OFFS)), (r.choice(OFFS), -1)])
+                hist.append(["add_link", s, so, t, to])
+                st.links.append((s, so, t, to))
             else:
                 # collision-heavy: reuse an existing source / target port most of the time
                 if st.links and r.random() < 0.6:
@@ -101,7 +111,8 @@ def gen_history(r, max_steps=30, max_nodes=8, allow_insert=True, depth=0, metada
                 hist.append(["delete_node", h])
                 st.delete(h)
         elif allow_insert and depth == 0 and len(live) < max_nodes:
-            sub = gen_history(r, max_steps=10, max_nodes=5, allow_insert=False, depth=1, metadata=metadata)
+            sub = gen_history(r, max_steps=10, max_nodes=5, allow_insert=False, depth=1, metadata=metadata,
+                              mixed=mixed)
             parent = r.choice(live)
             hist.append(["insert", parent, sub])
             # the inserted nodes get handles in the order the sub-hugr iterates them; the shadow
@@ -165,8 +176,16 @@ class Exec:
             m.add_node(n.idx, name, self.node(st[1]).idx, st[2], st[3])
             self.handles.append(n)
         elif k == "add_const":
-            n = h.add_const(val.TRUE, self.node(st[1]))
-            m.add_node(n.idx, "Const", self.node(st[1]).idx, None)
+            if len(st) > 2:
+                v = [val.TRUE, val.FALSE, val.Unit, val.Tuple(val.TRUE, val.Unit)][st[2]]
+                kw = {"metadata": dict(st[3])} if st[3] is not None else {}
+                n = h.add_const(v, self.node(st[1]), **kw)
+                m.add_node(n.idx, "Const", self.node(st[1]).idx, None, st[3])
+                if h[n].op.val != v:
+                    raise AssertionError(f"add_const stored {h[n].op.val!r} for {v!r}")
+            else:
+                n = h.add_const(val.TRUE, self.node(st[1]))
+                m.add_node(n.idx, "Const", self.node(st[1]).idx, None)
             self.handles.append(n)
         elif k == "add_link":
             s, t = self.node(st[1]), self.node(st[3])
@@ -188,7 +207,8 @@ class Exec:
             m.delete_link(s.idx, st[2], t.idx, st[4])
         elif k == "delete_node":
             n = self.node(st[1])
-            h.delete_node(n)
+            before = h[n]
+            self.deleted = (before, h.delete_node(n))
             m.delete_node(n.idx)
             self.dead.add(st[1])
         elif k == "insert":
